@@ -212,6 +212,9 @@ func GoLow(name string, f func()) {
 // Yield is a pure scheduling point.
 func Yield() {
 	s := S
+	if s == nil {
+		return // outside a scheduled execution (sequential use of instrumented code)
+	}
 	t := s.cur
 	t.op = opYield
 	s.park(t)
